@@ -57,6 +57,18 @@ func AccessPath(v ssa.Value) string {
 			}
 			return AccessPath(t.X)
 		}
+	case *ssa.IndexAddr:
+		// element of a slice/array reached through a stable path: x[3] (constant index) or x[*]
+		base := AccessPath(t.X)
+		if base == "" {
+			return ""
+		}
+		if k, ok := t.Index.(*ssa.Const); ok && k.Value != nil {
+			return base + "[" + k.Value.ExactString() + "]"
+		}
+		return base + "[*]"
+	case *ssa.Slice:
+		return AccessPath(t.X)
 	case *ssa.Alloc:
 		if sts := StoresTo(t); len(sts) == 1 {
 			return AccessPath(sts[0].Val)
